@@ -317,10 +317,15 @@ pub fn as_type_name(xml_name: &str) -> String {
 pub fn as_identifier(name: &str) -> String {
     let mut identifier: String = name
         .chars()
-        .map(|c| if c.is_ascii_alphanumeric() || c == '_' || (!c.is_ascii() && c.is_alphabetic()) { c } else { '_' })
+        .map(|c| if unicode_ident::is_xid_continue(c) { c } else { '_' })
         .collect();
-    if identifier.is_empty() || identifier.starts_with(|c: char| c.is_ascii_digit()) {
+    // an empty name, a leading digit or a leading combining character
+    if !identifier.starts_with(|c: char| c == '_' || unicode_ident::is_xid_start(c)) {
         identifier.insert(0, '_');
+    }
+    // a lone underscore is a pattern, not an identifier
+    if identifier == "_" {
+        identifier.push('_');
     }
     identifier
 }
